@@ -69,7 +69,40 @@ def c10_build(valid, unit, v, r, new_id):
     return c.line(new_id)
 
 
+def _order_variants(valid, rnd):
+    """C04: the parts of a multi-part reply in another arrival order (the part flagged `final` first, reversed, rotated,
+    shuffled): every part carries its number, so what is decoded is the same state"""
+    import copy
+    if valid.notwf or not valid.want.startswith("OK"):
+        return []
+    c = valid.case()
+    if not c.script or c.script[0] == "X" or len(c.script[0]) < 2 or any(d is None for d in c.script[0]):
+        return []
+    parts = c.script[0]
+    out = []
+    orders = {"final-first": parts[-1:] + parts[:-1], "reversed": parts[::-1], "rotated": parts[1:] + parts[:1]}
+    sh = parts[:]
+    rnd.shuffle(sh)
+    orders["shuffled"] = sh
+    for k, (how, new) in enumerate(orders.items()):
+        if new == parts:
+            continue
+        c2 = valid.case()
+        c2.script[0] = new
+        v = copy.copy(valid)
+        v.tags = dict(valid.tags)
+        v.tags["THM"] = "0"
+        v.id = f"{valid.id}o{k}"
+        v.line = c2.line(v.id)
+        out.append(v)
+    return out
+
+
 def decode_variants(valid, rnd):
+    return _order_variants(valid, rnd) + _spelling_variants(valid, rnd)
+
+
+def _spelling_variants(valid, rnd):
     """C04: a server that sends BOTH spellings of a typed variable (`AdminName` and `admin`): the long one is the
     admin's name, the short one is a variable like any other and belongs in the unused entries.  The generated state uses
     one spelling; the variant adds `\\admin\\root` behind an `AdminName` pair and expects one more unused entry."""
